@@ -309,6 +309,34 @@ theorem C08_history_solution (pd0 : Pd) (ms : List MatrixModel) (m : MatrixModel
   rw [C08_history_last]
   exact ⟨onPrimalPd_pdOf m xs hl, onSuffixPd_pdOf m kind entries⟩
 
+/-! ## 7b. Histories on one file stub: the auxiliary name files -/
+
+/-- writing a model replaces or removes the name files, whatever an earlier model left on the stub -/
+theorem C08_namefiles_overwrite (old : NameFiles) (m : MatrixModel) :
+    writeNameFiles old m = ⟨feedColNames m, feedRowObjNames m⟩ := by
+  unfold writeNameFiles writeNameFile
+  cases feedColNames m <;> cases feedRowObjNames m <;> rfl
+
+/-- after ANY history of models written to one stub (any initial files, any earlier models, named or not) the name
+files are those of the LAST model: `.col` exists iff that model has column names and then its line `vperm j` is the name of
+column `j`; `.row` exists iff it has row names and then holds them in caller order followed by the objective name -/
+theorem C08_namefiles_history_last (fs0 : NameFiles) (ms : List MatrixModel) (m : MatrixModel) :
+    runStubHistory fs0 (ms ++ [m]) = ⟨feedColNames m, feedRowObjNames m⟩ ∧
+    ((runStubHistory fs0 (ms ++ [m])).col.isSome = m.colNames.isSome) ∧
+    ((runStubHistory fs0 (ms ++ [m])).row.isSome = m.rowNames.isSome) ∧
+    (∀ nm, m.colNames = some nm → ∀ j, j < m.n →
+      ∃ l, (runStubHistory fs0 (ms ++ [m])).col = some l ∧ l.length = m.n ∧ l.getD (vperm m j) "" = nm.getD j "") := by
+  have h : runStubHistory fs0 (ms ++ [m]) = ⟨feedColNames m, feedRowObjNames m⟩ := by
+    unfold runStubHistory
+    rw [List.foldl_append]
+    exact C08_namefiles_overwrite _ m
+  rw [h]
+  refine ⟨rfl, ?_, ?_, ?_⟩
+  · simp [feedColNames]
+  · simp [feedRowObjNames]
+  · intro nm hnm j hj
+    exact C08_colnames_follow m nm hnm j hj
+
 /-! ## 8. Ties to the definitions GENERATED from the current source (`MpVerif.Gen.C08Easy`, translators/gen_easy_c08.py)
 
 The model functions the theorems above speak about are proved equal to what the translator extracts from
@@ -478,6 +506,15 @@ theorem C08_gen_vperm (m : MatrixModel) (j : Nat) (hj : j < m.n) :
     unfold vpermInv
     rw [getD_eq_getElem' _ _ hlen, getD_eq_getElem' _ _ hjl]
     exact this
+
+/-- the removal rule of the model's `writeNameFile` is the GENERATED destructor condition of `StringFileWriter`: a writer
+that was never opened and wrote nothing (feeder without names) removes the file; one that was opened never does -/
+theorem C08_gen_namefile_removed :
+    sfwRemoves 0 false = true ∧ (∀ cnt, sfwRemoves cnt true = false) ∧ (∀ cnt, cnt ≠ 0 → ∀ b, sfwRemoves cnt b = false) ∧
+    (∀ old, writeNameFile old none = none) ∧ (∀ old l, writeNameFile old (some l) = some l) := by
+  refine ⟨by decide, ?_, ?_, fun _ => rfl, fun _ _ => rfl⟩
+  · intro cnt; simp [sfwRemoves]
+  · intro cnt h b; simp [sfwRemoves, h]
 
 end Gen
 
